@@ -14,7 +14,7 @@ fn values() -> Vec<&'static str> {
         "", "$", "$()", "$( )", "$$", "$a", "$a(", "$a(1", "$a(1)(2)", "()", "(", ")", "(1", "1)", "=", "==", "-", "+", ".", "e", "1e", "1e400", "-1e400", "NaN", "nan", "inf", "-inf",
         "1:2", "1:2:3", "1:2:3:4", ":", "::", "1:", ":1", "1:60:60", "1N", "1S", "1E", "1W", "N", "1:2:3N", "é", "1é", "°", "1°", "٣", "1,2", "1,2,3", "1,2,3,4,5", ",", ",,", "1,,2",
         "a,b", "0", "-0", "1", "-1", "61", "4294967296", "18446744073709551616", "-9223372036854775809", "1e19,-5", "3,2", "3,-2", "2,3", "0,0", "1.5,0.5", "true", "false", "TRUE", "1 2",
-        "@null", "@", "@@", "null", "foo", "foo.bar", "GRS80", "6378137,0", "6378137,298", "0,0", "-1,300", "neuf", "enuf_deg", "position_vector", "coordinate_frame",
+        "@null", "@", "@@", "null", "foo", "foo.bar", "GRS80", "6378137,0", "6378137,298", "0,0", "-1,300", "neuf", "enuf_deg", "position_vector", "coordinate_frame", "enuñ", "enñ", "enuñ_deg", "enñ_deg", "neu€",
     ]
 }
 fn keys() -> Vec<&'static str> {
@@ -27,7 +27,7 @@ fn tuples() -> [Coor4D; 4] {
     [Coor4D([0.2, 0.9, 30.0, 2020.0]), Coor4D([f64::NAN, 0.5, 0.0, 0.0]), Coor4D([1e300, -1e300, f64::INFINITY, f64::NAN]), Coor4D([500000.0, 6000000.0, 0.0, 0.0])]
 }
 
-//@n {"id":"C09.N.definitions","props":["C09"],"tier":"quick","bound":"every built-in operator name (36) alone, with each of 43 parameter keys x 84 adversarial values (dereference sigils, unbalanced parentheses, sexagesimal fragments, multi-byte characters, huge and non-numeric numbers, malformed lists, unknown names), and as a step of a pipeline; each instantiated operator applied in both directions to 4 tuples incl. NaN/inf/1e300","text":"instantiating an operator from any of these texts returns a handle or an error value, and applying any instantiated operator in either direction to any of the tuples returns; neither ever panics"}
+//@n {"id":"C09.N.definitions","props":["C09"],"tier":"quick","bound":"every built-in operator name (36) alone, with each of 43 parameter keys x 89 adversarial values (dereference sigils, unbalanced parentheses, sexagesimal fragments, multi-byte characters, huge and non-numeric numbers, malformed lists, unknown names), and as a step of a pipeline; each instantiated operator applied in both directions to 4 tuples incl. NaN/inf/1e300","text":"instantiating an operator from any of these texts returns a handle or an error value, and applying any instantiated operator in either direction to any of the tuples returns; neither ever panics"}
 #[test]
 fn verif_native_c09_definitions() {
     let prev = std::panic::take_hook();
